@@ -84,13 +84,14 @@ theorem nextItem_none {α : Type} (m : Mode) (p : Prov) (hcs : 2 ≤ p.cs) (r : 
   simp only at h
   rw [h.1]
 
-/-- The collecting loop over a category that holds exactly the encodings of `items`. -/
+/-- The collecting loop over a category that holds the encodings of `items` followed by `slack < sz` bytes of
+    padding. -/
 theorem collectLoop_items {α β : Type} (m : Mode) (p : Prov) (hcs : 2 ≤ p.cs) (sz cap capItem : Nat)
-    (parse : List Nat → M α) (enc : β → List Nat) (dec : β → α) (hsz : 0 < sz) :
+    (parse : List Nat → M α) (enc : β → List Nat) (dec : β → α) (slack : Nat) (hslack : slack < sz) :
     ∀ (items : List β) (r : Range) (acc : List α) (fuel : Nat),
       (∀ b ∈ items, (enc b).length = sz ∧ parse (enc b) = ret (dec b)) →
-      Holds p.rd r.pos (items.flatMap enc) → r.endp = r.pos + (items.flatMap enc).length → r.endp < 65536 →
-      acc.length + items.length ≤ cap → items.length < fuel →
+      Holds p.rd r.pos (items.flatMap enc) → r.endp = r.pos + (items.flatMap enc).length + slack →
+      r.endp < 65536 → acc.length + items.length ≤ cap → items.length < fuel →
       (collectLoop m p sz cap capItem parse fuel r acc).1 = .ok (acc ++ items.map dec) := by
   intro items
   induction items with
@@ -99,7 +100,7 @@ theorem collectLoop_items {α β : Type} (m : Mode) (p : Prov) (hcs : 2 ≤ p.cs
     obtain ⟨f, rfl⟩ : ∃ f, fuel = f + 1 := ⟨fuel - 1, by omega⟩
     unfold collectLoop
     simp only [List.flatMap_nil, List.length_nil, Nat.add_zero] at hend
-    rw [bind_fst_ok _ (nextItem_none m p hcs r sz parse he hsz (by omega))]
+    rw [bind_fst_ok _ (nextItem_none m p hcs r sz parse he (by omega) (by omega))]
     simp
   | cons b items ih =>
     intro r acc fuel henc hh hend he hcap hfuel
@@ -121,5 +122,82 @@ theorem collectLoop_items {α β : Type} (m : Mode) (p : Prov) (hcs : 2 ≤ p.cs
       (by simp only; rw [hend, List.length_append, hb.1]; omega) he (by simp; omega) (by omega)
     rw [this]
     simp
+
+/-- A found category: its window and the fact that the memory there holds its body. -/
+theorem category_found_body (m : Mode) (p : Prov) (hcs : 4 ≤ p.cs) (pre : List Cat) (c : Cat) (rest : List Nat)
+    (hh : Holds p.rd 128 (encCats pre ++ (encCat c ++ rest)))
+    (hpre : ∀ x ∈ pre, x.WF ∧ catOf x.type ≠ catOf c.type ∧ catOf x.type ≠ Gen.Eeprom.CAT_END)
+    (hc : c.WF) (hne : empties pre + (if c.body.length / 2 = 0 then 1 else 0) < 32)
+    (hsize : 128 + (encCats pre).length + 4 + c.body.length < 65536) :
+    (category m p (catOf c.type)).1
+      = .ok (some ⟨128 + (encCats pre).length + 4, 128 + (encCats pre).length + 4 + c.body.length⟩) ∧
+    Holds p.rd (128 + (encCats pre).length + 4) c.body := by
+  refine ⟨category_found_at m p hcs pre c rest hh hpre hc hne hsize, ?_⟩
+  have h1 := hh.append.2
+  unfold encCat at h1
+  simp only [List.append_assoc] at h1
+  have h2 := h1.append.2.append.2.append.1
+  simp only [le16_length] at h2
+  rw [show 128 + (encCats pre).length + 4 = 128 + (encCats pre).length + 2 + 2 by omega]
+  exact h2
+
+/-! ### bytes and strings -/
+
+theorem readByte_ok (m : Mode) (p : Prov) (hcs : 2 ≤ p.cs) (r : Range) (h : r.pos + 1 < 65536) :
+    (Range.readByte m p r).1 = .ok (p.rd r.pos, { r with pos := r.pos + 1 }) := by
+  unfold Range.readByte clearErrors readChunk
+  simp only [bind_call]
+  rw [add16_ok _ _ _ _ h]
+  simp only [bind_ret]
+  have hget : (chunkAt p (r.pos / 2))[r.pos % 2]? = some (p.rd r.pos) := by
+    unfold chunkAt
+    rw [slice_getElem?, if_pos (by omega)]
+    congr 2; omega
+  rw [hget]
+  rfl
+
+theorem skip_ok (m : Mode) (r : Range) (k : Nat) (h : r.pos + k < r.endp) (he : r.endp < 65536) :
+    (Range.skip m r k).1 = .ok { r with pos := r.pos + k } := by
+  unfold Range.skip
+  rw [add16_ok _ _ _ _ (by omega)]
+  simp only [bind_ret]
+  rw [if_neg (by omega)]
+  rfl
+
+/-- One string of the Strings category: length byte, then the bytes. -/
+def encStr (x : List Nat) : List Nat := x.length :: x
+
+/-- Skipping the strings in front of the one wanted. -/
+theorem skipStrings_enc (m : Mode) (p : Prov) (hcs : 2 ≤ p.cs) :
+    ∀ (skipped : List (List Nat)) (r : Range) (rest : List Nat),
+      Holds p.rd r.pos (skipped.flatMap encStr ++ rest) → 1 ≤ rest.length →
+      r.pos + (skipped.flatMap encStr).length + rest.length ≤ r.endp → r.endp < 65536 →
+      (skipStrings m p skipped.length r).1 = .ok { r with pos := r.pos + (skipped.flatMap encStr).length } := by
+  intro skipped
+  induction skipped with
+  | nil => intro r rest _ _ _ _; simp [skipStrings]
+  | cons x xs ih =>
+    intro r rest hh hrest hfit he
+    simp only [List.flatMap_cons, List.length_append, List.append_assoc] at hh hfit
+    have hx : (encStr x).length = x.length + 1 := by simp [encStr]
+    rw [hx] at hfit
+    simp only [List.length_cons]
+    unfold skipStrings
+    rw [bind_fst_ok _ (readByte_ok m p hcs r (by omega))]
+    have hlenbyte : p.rd r.pos = x.length := by
+      have := hh.append.1.get 0 (by simp [encStr])
+      simpa [encStr] using this
+    simp only [hlenbyte]
+    rw [bind_fst_ok _ (skip_ok m { r with pos := r.pos + 1 } x.length (by simp only; omega) he)]
+    have hh2 : Holds p.rd (r.pos + 1 + x.length) (xs.flatMap encStr ++ rest) := by
+      have := hh.append.2
+      rw [hx] at this
+      rw [show r.pos + 1 + x.length = r.pos + (x.length + 1) by omega]
+      exact this
+    have := ih { r with pos := r.pos + 1 + x.length } rest hh2 hrest (by simp only; omega) he
+    rw [this]
+    simp only [List.flatMap_cons, List.length_append, hx]
+    congr 2
+    omega
 
 end Ec.Eeprom
